@@ -1380,7 +1380,9 @@ int expr_comb_cmp_and_set(expr * left, expr * right, expr * value, int * result)
         value->comb.comb_enumtype = left->comb.comb_enumtype;
     }
     else if (left->comb.comb == COMB_TYPE_TOUPLE &&
-             right->comb.comb == COMB_TYPE_TOUPLE)
+             right->comb.comb == COMB_TYPE_TOUPLE &&
+             param_list_cmp(left->comb.touple.comb_dims,
+                            right->comb.touple.comb_dims, false) == PARAM_CMP_SUCC)
     {
         value->comb.comb = COMB_TYPE_TOUPLE;
         value->comb.touple = left->comb.touple;
